@@ -218,4 +218,95 @@ theorem timerRest2_span (start stop nameOffset : Nat) (body : Body) (s : BP α) 
   refine Sat.bind_any (α := α) ?_; intro _ _
   exact timerFinish_span (α := α) start stop nameOffset body _ _ _ _
 
+def noteWarn (x : Ev α) : Prop :=
+  ∃ a b, x = .warning ⟨.warning, .parse, "note-not-allowed:timer", [a, b]⟩
+
+/-- **every label of every diagnostic `timer` pushes lies inside the timer's span**, except for the
+    warning about a note following the timer -/
+theorem timerP_labels_inside {ts : List Tok} {e : Ext} {s s' : BP α} {t : Loc (PTimer α)}
+    (hw : WF ts) (h : G ts e s) (hrun : timerP s = (some (.timer t), s')) :
+    t.span.start = offAt ts s.cur ∧
+    ∃ l, s'.evs.toList = s.evs.toList ++ l ∧ ∀ x ∈ l, DiagEv (Span.Inside t.span) x ∨ noteWarn x := by
+  obtain ⟨mtoks, body, s1, s2, s3, hc⟩ := timerP_some_cut hrun
+  have q3 : Same s s3 := hc.same
+  have hcut := timerP_cut hc
+  -- the invariant at the end of the cut
+  have g3 : G ts e s3 := by
+    obtain ⟨⟨tk, h1⟩, h2, h3⟩ := hc
+    have ge0 : GE (fun _ => True) ts e s := ⟨h, trivial⟩
+    obtain ⟨g1, -, -, -⟩ := Sat.of_run (consumeK_ge .tilde ge0) h1
+    obtain ⟨g2, -, -, -⟩ := Sat.of_run (modifiersP_ev g1) h2
+    exact (Sat.of_run (compBody_slices g2.g) h3).1
+  -- the three parts of the tail
+  rcases hH : timerHead (α := α) mtoks body s3 with ⟨u1, sA⟩
+  rcases hN : checkNoteTimer (α := α) sA with ⟨u2, sN⟩
+  have hR : timerP s = timerRest2 (curOff s) (curOff s3) (curOff s2) body sN := by
+    rw [hcut, timerTail_eq]
+    show timerRest2 _ _ _ _ (checkNoteTimer (timerHead mtoks body s3).2).2 = _
+    rw [hH]
+    show timerRest2 _ _ _ _ (checkNoteTimer sA).2 = _
+    rw [hN]
+  have hfr : sA = { s3 with evs := sA.evs } := by
+    have := timerHead_frame (α := α) mtoks body s3
+    rw [hH] at this; exact this
+  have gA : G ts e sA := by rw [hfr]; exact g3.setEvs _
+  have cA : sA.cur = s3.cur := by rw [hfr]
+  obtain ⟨gN, cN⟩ := Sat.of_run (checkNoteTimer_sat gA) hN
+  have cN3 : sN.cur = s3.cur := cN.trans cA
+  -- head: run on the tokens of the timer
+  obtain ⟨hlt, e0, e3, -, comp, w, hcomp, hwd, hwfi, ge3, hname, hq, hm, hrm, hpos, hclose⟩ :=
+    cut_restrict' hw h hc g3 (Nat.le_refl _)
+  have hHe := timerHead_ge (tailCtx (α := α) hwfi s3.evs.toList) ge3 hrm hname
+  unfold Sat at hHe
+  rw [(Indep.timerHead mtoks body).out s3 comp comp.length, hH] at hHe
+  obtain ⟨lH, hlH, hallH⟩ := hHe.evs
+  -- check_note
+  have hNe := Sat.of_run (checkNoteTimer_evs sA) hN
+  -- rest: run on the tokens of the timer
+  obtain ⟨-, -, eN, -, comp', w', hcomp', hwd', hwfi', geN, hname', hq', -, -, -, hclose'⟩ :=
+    cut_restrict' hw h hc gN (Nat.le_of_eq cN3.symm)
+  have hRe := timerRest2_ge (tailCtx (α := α) hwfi' sN.evs.toList) geN (curOff s) (curOff s3) (curOff s2)
+    hname' hq' hclose'
+  unfold Sat at hRe
+  rw [(Indep.timerRest2 ..).out sN comp' comp'.length, ← hR, hrun] at hRe
+  obtain ⟨lR, hlR, hallR⟩ := hRe.evs
+  -- the span of the timer
+  have hsp := timerRest2_span (α := α) (curOff s) (curOff s3) (curOff s2) body sN
+  unfold Sat at hsp
+  rw [← hR, hrun] at hsp
+  have hspan := hsp t rfl
+  rw [e0, e3] at hspan
+  have hin3 : ∀ sp, SpanOK (offAt ts s.cur) w sp → Span.Inside t.span sp := by
+    intro sp hsp'
+    rw [hspan]
+    subst hwd hcomp
+    exact spanOK_inside hw (Nat.le_of_lt hlt) hsp'
+  have hinN : ∀ sp, SpanOK (offAt ts s.cur) w' sp → Span.Inside t.span sp := by
+    intro sp hsp'
+    rw [hspan]
+    subst hwd' hcomp'
+    have := spanOK_inside hw (c0 := s.cur) (c4 := sN.cur) (by omega) hsp'
+    rw [cN3] at this
+    exact this
+  refine ⟨by rw [hspan], ?_⟩
+  rcases hNe with hsame | ⟨a, b, hpush⟩
+  · refine ⟨lH ++ lR, ?_, ?_⟩
+    · rw [hlR, hsame, hlH, q3.2.2, List.append_assoc]
+    · intro x hx
+      simp only [List.mem_append] at hx
+      rcases hx with hx | hx
+      · exact Or.inl ((hallH x hx).mono hin3)
+      · exact Or.inl ((hallR x hx).mono hinN)
+  · refine ⟨lH ++ [.warning ⟨.warning, .parse, "note-not-allowed:timer", [a, b]⟩] ++ lR, ?_, ?_⟩
+    · rw [hlR, hpush]
+      simp only [Array.toList_push]
+      rw [hlH, q3.2.2]
+      simp only [List.append_assoc]
+    · intro x hx
+      simp only [List.mem_append, List.mem_singleton] at hx
+      rcases hx with (hx | hx) | hx
+      · exact Or.inl ((hallH x hx).mono hin3)
+      · exact Or.inr ⟨a, b, hx⟩
+      · exact Or.inl ((hallR x hx).mono hinN)
+
 end Cook
